@@ -734,3 +734,134 @@ Theorem or_trig_flags r :
   flag_of USAR_TRIG_TERMR (r_trig (or_trig USAR_TRIG_TERMR r)) = true /\
   flag_of USAR_TRIG_IMMER (r_trig (or_trig USAR_TRIG_IMMER r)) = true.
 Proof. exact (conj (or_trig_termr r) (or_trig_immer r)). Qed.
+
+(* ---------------------------------------------------------------- Close marks every URR removed: one IE per URR in a Deletion Response *)
+
+Definition rm_mono (c c' : sctx) : Prop :=
+  forall u inf', alookup u (s_urrs (c_s c')) = Some inf' ->
+    exists inf, alookup u (s_urrs (c_s c)) = Some inf /\ (ui_removed inf = true -> ui_removed inf' = true).
+
+Lemma rm_mono_refl c : rm_mono c c.
+Proof. intros u inf' H. exists inf'. auto. Qed.
+
+Lemma rm_mono_trans a b c : rm_mono a b -> rm_mono b c -> rm_mono a c.
+Proof.
+  intros A B u inf2 H2. destruct (B _ _ H2) as [inf1 [H1 E1]]. destruct (A _ _ H1) as [inf0 [H0 E0]].
+  exists inf0. split; [exact H0 | auto].
+Qed.
+
+Lemma rm_mono_same c c' : s_urrs (c_s c') = s_urrs (c_s c) -> rm_mono c c'.
+Proof. intros E u inf' H. rewrite E in H. exists inf'. auto. Qed.
+
+Lemma remove_simple_rm e k id c : rm_mono c (remove_simple e k id c).
+Proof.
+  unfold remove_simple. destruct id as [i|]; [|apply rm_mono_refl].
+  destruct (memN i (recorded (c_s c) k)); [|apply rm_mono_refl].
+  pose proof (drv_s e c DRemove k i) as Hs. destruct (drv e c DRemove k i) as [c1 ok]. cbn [fst] in Hs.
+  apply rm_mono_same. destruct ok; cbn [upd_s c_s]; rewrite Hs; [destruct k|]; reflexivity.
+Qed.
+
+Lemma remove_urr_rm e id c : rm_mono c (fst (remove_urr e id c)).
+Proof.
+  unfold remove_urr. destruct id as [i|]; [|apply rm_mono_refl].
+  destruct (alookup i (s_urrs (c_s c))) as [inf|] eqn:El; [|apply rm_mono_refl].
+  match goal with |- context [drv e ?cx DRemove KURR i] =>
+    pose proof (drv_s e cx DRemove KURR i) as Hs; destruct (drv e cx DRemove KURR i) as [c2 ok] end.
+  cbn [fst] in *. intros u inf' H. rewrite Hs in H. cbn [upd_s c_s set_urrs s_urrs] in H.
+  destruct (N.eq_dec u i) as [->|Hne].
+  - rewrite alookup_aset_same in H. inversion H; subst. exists inf. split; [exact El | reflexivity].
+  - rewrite alookup_aset_other in H by exact Hne. exists inf'. auto.
+Qed.
+
+Lemma dis_all_removed us : forall l u inf', alookup u (dis_all us l) = Some inf' ->
+  exists inf, alookup u l = Some inf /\ ui_removed inf' = ui_removed inf.
+Proof.
+  unfold dis_all. induction us as [|a us IH]; intros l u inf' H; cbn [fold_left] in H; [exists inf'; auto|].
+  destruct (IH _ _ _ H) as [inf1 [H1 E1]]. rewrite dis_l_lookup in H1.
+  destruct (alookup u l) as [inf|]; [|discriminate]. exists inf. split; [reflexivity|].
+  inversion H1; subst. rewrite E1. destruct (N.eqb u a && (0 <? ui_ref inf)); reflexivity.
+Qed.
+
+Lemma remove_pdr_rm e id c : rm_mono c (fst (remove_pdr e id c)).
+Proof.
+  destruct (remove_pdr_s e id c) as [E|[i [rel [_ [_ E]]]]]; [apply rm_mono_same; rewrite E; reflexivity|].
+  intros u inf' H. rewrite E in H. cbn [set_pdrs set_urrs s_urrs] in H.
+  destruct (dis_all_removed _ _ _ _ H) as [inf [H0 E0]]. exists inf. split; [exact H0 | congruence].
+Qed.
+
+Lemma fold_remove_urr_marks e ids : forall c u inf',
+  In u ids -> alookup u (s_urrs (c_s (fst (fold_rpt (remove_urr e) (map Some ids) c)))) = Some inf' ->
+  ui_removed inf' = true.
+Proof.
+  induction ids as [|a ids IH]; intros c u inf' Hin H; [destruct Hin|].
+  cbn [map fold_rpt] in H.
+  pose proof (remove_urr_termr e a c) as T.
+  destruct (remove_urr e (Some a) c) as [c1 r1] eqn:E1.
+  assert (M : rm_mono c1 (fst (fold_rpt (remove_urr e) (map Some ids) c1))).
+  { apply (fold_rpt_rel rm_mono rm_mono_refl rm_mono_trans). intros; apply remove_urr_rm. }
+  pose proof (IH c1 u inf') as IH1.
+  destruct (fold_rpt (remove_urr e) (map Some ids) c1) as [c2 r2]. cbn [fst] in *.
+  destruct (N.eq_dec u a) as [->|Hne].
+  - destruct (M _ _ H) as [inf1 [H1 E]]. apply E.
+    destruct (alookup a (s_urrs (c_s c))) as [inf0|] eqn:E0.
+    + destruct (T inf0 eq_refl) as [_ [_ [x [Hx [Hr _]]]]]. rewrite H1 in Hx. inversion Hx; subst. exact Hr.
+    + unfold remove_urr in E1. rewrite E0 in E1. inversion E1; subst. congruence.
+  - destruct Hin as [Ha|Hin]; [congruence|]. apply IH1; assumption.
+Qed.
+
+Definition URRCAT : string := "URRIDs:RemoveURR".
+
+Lemma close_categories_marks e : forall names c r,
+  close_categories e names c = Some r -> In URRCAT names ->
+  forall u inf', alookup u (s_urrs (c_s (fst r))) = Some inf' -> ui_removed inf' = true.
+Proof.
+  assert (Hrel : forall names c r, close_categories e names c = Some r -> rm_mono c (fst r)).
+  { intros names c r E. refine (close_categories_rel rm_mono rm_mono_refl rm_mono_trans e _ _ _ names c r E); intros;
+      [apply remove_simple_rm | apply remove_urr_rm | apply remove_pdr_rm]. }
+  induction names as [|n names IH]; intros c r; cbn [close_categories]; [intros _ []|].
+  destruct (close_category e n c) as [[c1 r1]|] eqn:E1; [|discriminate].
+  destruct (close_categories e names c1) as [[c2 r2]|] eqn:E2; [|discriminate].
+  intros H Hin u inf' Hu. inversion H; subst. cbn [fst] in Hu.
+  destruct (String.eqb n URRCAT) eqn:En.
+  - apply String.eqb_eq in En. subst n. unfold URRCAT in E1.
+    assert (Ec : close_category e "URRIDs:RemoveURR" c =
+                 Some (fold_rpt (remove_urr e) (map Some (map fst (s_urrs (c_s c)))) c)) by reflexivity.
+    rewrite Ec in E1. clear Ec. injection E1 as E1.
+    assert (Hc1 : c1 = fst (fold_rpt (remove_urr e) (map Some (map fst (s_urrs (c_s c)))) c)) by (rewrite E1; reflexivity).
+    destruct (Hrel _ _ _ E2 _ _ Hu) as [inf1 [H1 E]]. cbn [fst] in H1. apply E.
+    assert (M1 : rm_mono c c1).
+    { rewrite Hc1. apply (fold_rpt_rel rm_mono rm_mono_refl rm_mono_trans). intros; apply remove_urr_rm. }
+    destruct (M1 _ _ H1) as [inf0 [H0 _]]. apply alookup_key in H0.
+    apply (fold_remove_urr_marks e (map fst (s_urrs (c_s c))) c u inf1 H0).
+    rewrite <- Hc1. exact H1.
+  - destruct Hin as [Heq|Hin]; [subst n; unfold URRCAT in En; discriminate|].
+    apply (IH c1 (c2, r2) E2 Hin u inf' Hu).
+Qed.
+
+Lemma close_order_has_urr : In URRCAT close_order.
+Proof.
+  assert (H : existsb (String.eqb URRCAT) close_order = true) by (vm_compute; reflexivity).
+  apply existsb_exists in H. destruct H as [x [Hx E]]. apply String.eqb_eq in E. subst. exact Hx.
+Qed.
+
+Theorem sess_close_marks_removed e c c' rs :
+  sess_close e c = Some (c', rs) ->
+  forall u inf', alookup u (s_urrs (c_s c')) = Some inf' -> ui_removed inf' = true.
+Proof.
+  unfold sess_close. destruct (close_categories e close_order c) as [[c1 r1]|] eqn:E; [|discriminate].
+  intros H u inf' Hu. inversion H; subst. cbn [upd_s c_s set_q s_urrs] in Hu.
+  exact (close_categories_marks e _ _ _ E close_order_has_urr u inf' Hu).
+Qed.
+
+(* Session Deletion Response: at most one usage-report IE per URR, each with TERMR *)
+Theorem deletion_reports_once e c c' rs u :
+  sess_close e c = Some (c', rs) ->
+  (length (ies_for u (snd (emit USAR_TRIG_TERMR true (s_urrs (c_s c')) rs))) <= 1)%nat /\
+  forall ie, In ie (snd (emit USAR_TRIG_TERMR true (s_urrs (c_s c')) rs)) -> flag_of USAR_TRIG_TERMR (ur_trig ie) = true.
+Proof.
+  intros H. split; [|intros ie; apply emit_termr_all].
+  destruct (emit USAR_TRIG_TERMR true (s_urrs (c_s c')) rs) as [urrs' ies] eqn:Ee. cbn [snd].
+  destruct (alookup u (s_urrs (c_s c'))) as [inf|] eqn:Eu.
+  - apply (emit_once_per_removed _ _ _ _ _ _ _ Ee Eu). eapply sess_close_marks_removed; eauto.
+  - rewrite (proj1 (emit_unknown_no_ie _ _ _ _ _ _ _ Ee Eu)). cbn. lia.
+Qed.
